@@ -172,6 +172,25 @@ func (c *Ctx) c06ValidationBeforeMutation(rule string) {
 			R.Unresolved(rule, "persistent writes of "+fk, "none found")
 			continue
 		}
+		// the insert whose key constraint refuses a re-used input (spent table in swap, pending table in melt)
+		// is itself a validation step: it is the first persistent write, every other write sits behind its
+		// success - a request refused by the constraint has changed nothing before
+		if keyRole := map[string]string{"/v1/swap": roleMarkSpent, "/v1/melt/{method}": roleLock}[path]; keyRole != "" {
+			keyOK := c.condErrNilRole("key-constrained insert of the inputs succeeded", keyRole, nil)
+			for _, s := range sites {
+				if c.V.DBRole(c.P.Describe(s.Inner), keyRole) {
+					continue
+				}
+				if !s.Direct {
+					if callee := s.Instr.Common().StaticCallee(); callee != nil && (callee == c.V.Op("/v1/mint/quote/{method}/{quote_id}") || callee == c.V.Op("/v1/melt/quote/{method}/{quote_id}")) {
+						continue
+					}
+				}
+				ok, why := c.RequireAt(s.Instr, keyOK)
+				R.Check(rule, fk, siteDesc(c, s)+" <= key-constrained insert of the inputs", c.P.InstrPos(s.Instr), ok,
+					"no persistent write precedes the insert whose key constraint can still refuse the request", why)
+			}
+		}
 		for _, s := range sites {
 			fn := s.Instr.Parent()
 			o := c.P.OriginsOf(fn)
